@@ -28,8 +28,8 @@ RULE = ('E3 TextGen strings: arithmetic chains (+ - * / ** with Fortran associat
         'component followed by * / **, .not. before a comparison) only appear in the hostile slice (25 % of cases). '
         'Non-trivial = >= 20 strings of the case were parsed by both parsers and compared on >= 3 valuations; distinct = '
         'hash of the strings.')
-CASES = {'quick': 160, 'thorough': 2400}
-MIN_NONTRIVIAL = {'quick': 120, 'thorough': 1800}
+CASES = {'quick': 112, 'thorough': 2000}
+MIN_NONTRIVIAL = {'quick': 80, 'thorough': 1500}
 ANCHORS = ['loki/expression/parser.py']
 REQUIRED_REACH = ['parse_prefix', 'parse_postfix', 'parse_terminal', 'map_power', 'map_quotient', 'map_comparison',
                   'map_logical_not', 'parse_f_int', 'map_lookup', 'map_algebraic_leaf']
@@ -313,7 +313,7 @@ def classify(ctx, vals, text, ast, status, rng):
     if st.startswith('exception') or st == 'illtyped':
         for rx, name in LEX:
             if rx.search(stext):
-                return f'parse:{st}:{name}', wit
+                return f'parse:{st.split(":")[0]}:{name}', wit
     if st == 'type' and small[0] == 'real' and 'd' in small[1].lower():
         return 'parse:type:d-exponent-literal-read-as-default-real', wit
     m = COMP_RX.search(stext)
@@ -324,7 +324,14 @@ def classify(ctx, vals, text, ast, status, rng):
             return 'parse:unary-minus-binds-tighter-than-power', wit
     ops = mulchain_ops(small)
     if ops and st == 'value':
+        i = ops.find('*')
+        if i >= 0 and len(ops) - i >= 3 and '/' in ops[i + 1:]:
+            # known mechanism: a '*' followed by two or more further * / operators, one of them a division
+            wit['operators'] = ops
+            return f'parse:mul-div-chain-regrouped(times-then-two-or-more-ops-with-division):{ty}', wit
         return f'parse:mul-div-chain-regrouped({ops}):{ty}', wit
+    if re.search(r'\.n?eqv\.', stext, re.I):
+        return f'parse:{st.split(":")[0]}:eqv-operator', wit
     return f'parse:{st}:{shape(small)}:{ty}', wit
 
 
